@@ -72,8 +72,88 @@ def n_singleton_sequence(node):
     return [prefix + inner[0]] + inner[1:]
 
 
+def _leaf(node, field):
+    c = child(node, field)
+    return c if isinstance(c, str) else None
+
+
+def n_pipe_first_hole(node):
+    """inside a pipeline (not in head position):  f(_, a, b)  ==  f(a, b)   and   f(_) == f
+    (the pipe operator supplies the first positional argument either way).  Only when the
+    capture has exactly ONE hole, in the FIRST position, WITHOUT a label."""
+    _, h = head_split(node[0])
+    if h != "PipeLine {":
+        return None
+    ex = child(node, "expressions")
+    if not is_node(ex):
+        return None
+    changed = False
+    new_items = [ex[0]]
+    for idx, item in enumerate(ex[1:]):
+        r = _uncapture(item) if idx >= 1 and is_node(item) else None
+        if r is not None:
+            changed = True
+            new_items.append(r)
+        else:
+            new_items.append(item)
+    if not changed:
+        return None
+    return [node[0]] + [new_items if c is ex else c for c in node[1:]]
+
+
+def _uncapture(item):
+    if item[0] != "Fn {" or _leaf(item, "fn_style") != "fn_style: Capture":
+        return None
+    args = child(item, "arguments")
+    body = child(item, "body")
+    if not is_node(args) or len(args) != 2 or not is_node(body) or body[0] != "body: Call {":
+        return None
+    cargs = child(body, "arguments")
+    fun = child(body, "fun")
+    if not is_node(cargs) or len(cargs) < 2 or fun is None:
+        return None
+    first = cargs[1]
+    if not is_node(first) or _leaf(first, "label") != "label: None":
+        return None
+    v = child(first, "value")
+    if not is_node(v) or v[0] != "value: Var {":
+        return None
+    name = _leaf(v, "name") or ""
+    if not name.startswith('name: "_capture__0_'):
+        return None
+    rest = cargs[2:]
+    if not rest:
+        if is_node(fun):
+            return [fun[0][len("fun: "):]] + fun[1:]
+        return fun[len("fun: "):]
+    return ["Call {", [cargs[0]] + rest] + [c for c in body[1:] if c is not cargs]
+
+
+def n_numeric_underscore(node):
+    """Decimal { numeric_underscore: true }: a spelling preference of a decimal literal
+    (1_0 and 10 are the same number; the driver already erases the analogous `one_liner`
+    layout flag).  The VALUE next to it is still compared."""
+    if node[0].endswith("Decimal {") and node[1:] == ["numeric_underscore: true"]:
+        return [node[0], "numeric_underscore: false"]
+    return None
+
+
+def n_empty_record_pattern(node):
+    """pattern `Foo {}` == `Foo` == `Foo()`: without fields and without `..` the record
+    flag only remembers which brackets were typed"""
+    _, h = head_split(node[0])
+    if h != "Constructor {":
+        return None
+    if "is_record: true" in node and "arguments: []" in node and "spread_location: None" in node:
+        return [("is_record: false" if c == "is_record: true" else c) for c in node]
+    return None
+
+
 RULES = {
     "singleton-sequence": n_singleton_sequence,
+    "pipe-first-hole": n_pipe_first_hole,
+    "numeric-underscore-flag": n_numeric_underscore,
+    "empty-record-pattern": n_empty_record_pattern,
 }
 
 
